@@ -35,6 +35,10 @@ var langCodes = []string{"", "eng", "fra", "spa", "kin"}
 
 const baseLang = 1 // eng
 
+// languages for which the localization may hold an entry; the last one is the flow's base language itself (a
+// stale entry, e.g. left behind when the base language was switched) which must never win over the base text
+var trLangs = []int{2, 3, 1}
+
 func code(l int) i18n.Language { return i18n.Language(langCodes[l]) }
 
 func langIndex(c string) int {
@@ -108,8 +112,8 @@ type config struct {
 	BaseAtts    []string            `json:"attachments"`
 	BaseQRs     []string            `json:"quick_replies"`
 	BaseArgs    []string            `json:"case_arguments"`
-	Tr          map[string][][]string `json:"translations"` // prop -> per language index 2,3 -> stored (nil absent)
-	States      map[string][2]int   `json:"states"`
+	Tr          map[string][][]string `json:"translations"` // prop -> per language index 2,3 and 1 (= the base language itself: a stale entry) -> stored (nil absent)
+	States      map[string][3]int   `json:"states"`
 }
 
 const (
@@ -134,7 +138,7 @@ var props = []struct{ name, item string }{
 func buildAssets(c *config) []byte {
 	loc := map[string]map[string]map[string][]string{}
 	for _, p := range props {
-		for li, l := range []int{2, 3} {
+		for li, l := range trLangs {
 			arr := c.Tr[p.name][li]
 			if arr == nil {
 				continue
@@ -360,7 +364,7 @@ func oracle(c *config, o *observed, res *hx.Result) {
 
 func trCoq(c *config, prop string) string {
 	var parts []string
-	for li, l := range []int{2, 3} {
+	for li, l := range trLangs {
 		arr := c.Tr[prop][li]
 		if arr == nil {
 			continue
@@ -388,7 +392,8 @@ func main() {
 	o := hx.ParseOpts()
 	res := hx.NewResult(o, "exhaustive product of contact language (5) x allowed-language list (10) x translation state of the "+
 		"message text in two languages (36) x presence of base attachments/quick replies (4); the states of the other "+
-		"five properties cycle through all 36 combinations; every configuration is distinct and counted once; "+
+		"five properties cycle through all 36 combinations, and the state of a (stale) localization entry for the base "+
+		"language itself cycles through its 6 values per property; every configuration is distinct and counted once; "+
 		"non-trivial = at least one property has a stored translation in some language")
 	res.Exhaustive = true
 	uuids.SetGenerator(uuids.NewSeededGenerator(int64(o.Seed), time.Now))
@@ -408,7 +413,7 @@ func main() {
 		for _, al := range allowedLists {
 			for ts := 0; ts < nStates*nStates; ts++ {
 				for pres := 0; pres < 4; pres++ {
-					c := &config{ContactLang: cl, Allowed: al, Tr: map[string][][]string{}, States: map[string][2]int{}}
+					c := &config{ContactLang: cl, Allowed: al, Tr: map[string][][]string{}, States: map[string][3]int{}}
 					c.BaseText = "hi"
 					c.BaseAtts = []string{}
 					if pres&1 != 0 {
@@ -428,7 +433,8 @@ func main() {
 							st = (k*(2*pi+5) + 3*pi) % (nStates * nStates)
 						}
 						s2, s3 := st/nStates, st%nStates
-						c.States[p.name] = [2]int{s2, s3}
+						sb := (k*(pi+7) + pi) % nStates // state of the entry for the base language itself (cycled)
+						c.States[p.name] = [3]int{s2, s3, sb}
 						baseLen := 1
 						switch p.name {
 						case "attachments":
@@ -440,6 +446,7 @@ func main() {
 						}
 						a2, _ := stored(s2, p.name, 2, baseLen)
 						a3, _ := stored(s3, p.name, 3, baseLen)
+						ab, _ := stored(sb, p.name, 1, baseLen)
 						// case-argument translations are number ranges: matching, non-matching, or of another length
 						if p.name == "arguments" {
 							fix := func(a []string, match bool) {
@@ -455,8 +462,9 @@ func main() {
 							}
 							fix(a2, k%2 == 0)
 							fix(a3, k%5 != 0)
+							fix(ab, k%3 == 1) // stale base-language arguments: the opposite of the base arguments' outcome
 						}
-						c.Tr[p.name] = [][]string{a2, a3}
+						c.Tr[p.name] = [][]string{a2, a3, ab}
 					}
 					k++
 					obs, err := run(c)
@@ -466,7 +474,7 @@ func main() {
 					}
 					nontrivial := false
 					for _, p := range props {
-						if c.Tr[p.name][0] != nil || c.Tr[p.name][1] != nil {
+						if c.Tr[p.name][0] != nil || c.Tr[p.name][1] != nil || c.Tr[p.name][2] != nil {
 							nontrivial = true
 						}
 					}
